@@ -46,6 +46,10 @@ type readProg struct {
 	// with an error or go on, but if it goes on, then with the next top-level
 	// element.
 	swallow string
+	// the handler, having read what its program says, returns an error of its
+	// own: "plain" some error, "stanza" a stanza error (for a request it has
+	// not answered).  The stream ends there with an error.
+	retErr string
 }
 
 type item struct {
@@ -164,6 +168,9 @@ func genProg(t *rapid.T) readProg {
 	}
 	if p.mode == "all" || p.mode == "allplus" {
 		p.swallow = rapid.SampledFrom([]string{"", "", "stop", "more"}).Draw(t, "swallow")
+	}
+	if rapid.IntRange(0, 9).Draw(t, "reterr") == 0 {
+		p.retErr = rapid.SampledFrom([]string{"plain", "stanza", "stanza"}).Draw(t, "reterrkind")
 	}
 	return p
 }
@@ -285,7 +292,7 @@ func (tc tcase) String() string {
 	fmt.Fprintf(&sb, "s2s=%v local=%s (session created as %q, negotiated=%q) output-closed-first=%v own-request-outstanding(caller reads %q of the response)=%v input=%q progs=[", tc.s2s, tc.local, tc.origin.String(), tc.negotiated, tc.outputClosed, tc.respRead, tc.respRead != "", tc.input())
 	for _, it := range tc.items {
 		if it.kind == "elem" {
-			fmt.Fprintf(&sb, "%s:%d:%d%s ", it.prog.mode, it.prog.k, it.prog.extra, map[string]string{"": "", "stop": ":read-error-ignored", "more": ":reads-on-after-a-read-error"}[it.prog.swallow])
+			fmt.Fprintf(&sb, "%s:%d:%d%s ", it.prog.mode, it.prog.k, it.prog.extra, map[string]string{"": "", "stop": ":read-error-ignored", "more": ":reads-on-after-a-read-error"}[it.prog.swallow]+map[string]string{"": "", "plain": ":then-returns-an-error", "stanza": ":then-returns-a-stanza-error"}[it.prog.retErr])
 		}
 	}
 	sb.WriteString("]")
@@ -336,7 +343,7 @@ func (r *recorder) HandleXMPP(t xmlstream.TokenReadEncoder, start *xml.StartElem
 	limit := -1
 	switch prog.mode {
 	case "none":
-		return nil
+		return progErr(prog)
 	case "some":
 		limit = prog.k
 	}
@@ -353,7 +360,7 @@ func (r *recorder) HandleXMPP(t xmlstream.TokenReadEncoder, start *xml.StartElem
 			iv.errs = append(iv.errs, err.Error())
 			switch prog.swallow {
 			case "stop":
-				return nil
+				return progErr(prog)
 			case "more":
 				for n := 0; n < 40; n++ {
 					tok, err := t.Token()
@@ -364,7 +371,7 @@ func (r *recorder) HandleXMPP(t xmlstream.TokenReadEncoder, start *xml.StartElem
 						break
 					}
 				}
-				return nil
+				return progErr(prog)
 			}
 			return err // handlers propagate read errors
 		}
@@ -374,6 +381,16 @@ func (r *recorder) HandleXMPP(t xmlstream.TokenReadEncoder, start *xml.StartElem
 			tok, err := t.Token()
 			iv.afterEOF = append(iv.afterEOF, fmt.Sprintf("%v,%v", tok, err))
 		}
+	}
+	return progErr(prog)
+}
+
+func progErr(prog readProg) error {
+	switch prog.retErr {
+	case "plain":
+		return errors.New("verif: the handler failed")
+	case "stanza":
+		return stanza.Error{Type: stanza.Modify, Condition: stanza.BadRequest}
 	}
 	return nil
 }
@@ -503,8 +520,13 @@ loop:
 			responseServed = true
 		case "elem":
 			want = append(want, exp{it.node, it.bad})
+			if it.bad == nil && it.prog.retErr != "" {
+				// the handler itself returns an error: the stream ends here
+				end = "error"
+				break loop
+			}
 			if it.bad != nil {
-				if it.prog.swallow != "" && it.bad.kind != "malformed" {
+				if it.prog.swallow != "" && it.bad.kind != "malformed" && it.prog.retErr == "" {
 					// the handler meets the read error itself and ignores it
 					stops = append(stops, len(want))
 					respAtStop = append(respAtStop, responseServed)
